@@ -23,6 +23,7 @@
  *   mask would not fit a TLC integer otherwise).
  */
 #include <stdio.h>
+#include <stdlib.h>
 #include <stdint.h>
 #include <string.h>
 
@@ -64,9 +65,36 @@ static int set_index(const struct tdma_sched_item *s)
 
 static int ncalls;
 
+/* second pass ("jcalls"): the frame number jumps (cell synchronisation, a harness setting an
+ * arbitrary frame number) onto every position and is walked on from there; the calls are
+ * collected, sorted and printed without duplicates */
+#define JLAND 5304		/* lcm of the multiframe lengths 13, 26, 51, 52, 102, 104 */
+#define JWALK 110
+struct jcall { uint32_t fn; int set; unsigned fl, off, p3; };
+static struct jcall *jc;
+static size_t njc, capjc;
+static int collecting;
+
+static int jcmp(const void *a, const void *b) { return memcmp(a, b, sizeof(struct jcall)); }
+
 /* replaces layer1/tdma_sched.c: record the call */
 int tdma_schedule_set(uint8_t frame_offset, const struct tdma_sched_item *item_set, uint16_t p3)
 {
+	if (collecting) {
+		if (njc == capjc) {
+			capjc = capjc ? 2 * capjc : 1 << 16;
+			jc = realloc(jc, capjc * sizeof(*jc));
+			if (!jc) { fprintf(stderr, "driver: out of memory\n"); exit(3); }
+		}
+		memset(&jc[njc], 0, sizeof(jc[njc]));
+		jc[njc].fn = l1s.current_time.fn;
+		jc[njc].set = set_index(item_set);
+		jc[njc].fl = p3 >> 8;
+		jc[njc].off = frame_offset;
+		jc[njc].p3 = p3 & 0xff;
+		njc++;
+		return 4;
+	}
 	printf("%s[%u,%d,%u,%u,%u]", ncalls ? "," : "", (unsigned)l1s.current_time.fn, set_index(item_set),
 	       p3 >> 8, frame_offset, p3 & 0xff);
 	ncalls++;
@@ -106,7 +134,27 @@ int main(void)
 			l1s.current_time.fn = fn;
 			mframe_schedule();
 		}
-		printf("]}");
+		printf("],\"jcalls\":[");
+		{
+			uint32_t land, k;
+			size_t q, first = 1;
+			collecting = 1;
+			njc = 0;
+			for (land = 0; land < JLAND; land++)
+				for (k = 0; k < JWALK; k++) {
+					l1s.current_time.fn = land + k;
+					mframe_schedule();
+				}
+			collecting = 0;
+			qsort(jc, njc, sizeof(*jc), jcmp);
+			for (q = 0; q < njc; q++) {
+				if (q && !memcmp(&jc[q], &jc[q - 1], sizeof(*jc)))
+					continue;
+				printf("%s[%u,%d,%u,%u,%u]", first ? "" : ",", (unsigned)jc[q].fn, jc[q].set, jc[q].fl, jc[q].off, jc[q].p3);
+				first = 0;
+			}
+		}
+		printf("],\"jmax\":%d}", JLAND + JWALK - 2);
 	}
 	printf("\n]");
 #ifdef VF_CHANNR
